@@ -102,7 +102,24 @@ NOT_APPLICABLE = {
 }
 
 
+def load_entries():
+    """Per-property entries dropped into tools/manifest_entries/<ID>.json:
+    {"engine": .., "engine_path": .., "engine_kind": .., "technique": .., "level": {category, text, design_ref}, "note": ..}"""
+    d = os.path.join(VERIF, "tools", "manifest_entries")
+    info = {}
+    if os.path.isdir(d):
+        for fn in sorted(os.listdir(d)):
+            if fn.endswith(".json"):
+                with open(os.path.join(d, fn)) as f:
+                    e = json.load(f)
+                pid = fn[:-5]
+                CHECKS[pid] = dict(engine=e["engine"], technique=e["technique"], level=e["level"], note=e["note"])
+                info[e["engine"]] = (e.get("engine_path", ""), e.get("engine_kind", ""))
+    return info
+
+
 def main():
+    extra_info = load_entries()
     ids = [json.loads(l)["id"] for l in open(os.path.join(VERIF, "properties.jsonl"))]
     try:
         commits = subprocess.run(["git", "-C", "/repo", "log", "--format=%H %s"], capture_output=True, text=True).stdout
@@ -138,6 +155,7 @@ def main():
         "pipeline": ("spec/Pipeline.tla", "TLA+ spec of the goroutine/channel skeleton + TLC exhaustive runs + trace "
                                           "validation + TLC-judged real executions"),
     }
+    ENGINE_INFO.update(extra_info)
     manifest = {
         "version": 1,
         "setup_cmd": "./tools/setup.sh",
